@@ -1,9 +1,11 @@
 package world
 
 import (
+	"encoding/json"
 	"fmt"
 
 	ad "github.com/pbenner/autodiff"
+	st "github.com/pbenner/autodiff/statistics"
 	"github.com/pbenner/autodiff/statistics/generic"
 	sd "github.com/pbenner/autodiff/statistics/scalarDistribution"
 	vd "github.com/pbenner/autodiff/statistics/vectorDistribution"
@@ -598,4 +600,138 @@ func RunModelConstructors(c *core.Ctx) {
 	c.Nontriv = n >= 2
 	c.StateStr(fmt.Sprint(name, isLog, n))
 	c.Sample = map[string]interface{}{"constructor": name, "log_scale": isLog, "states": n}
+}
+
+/* read-only operations on compound models ------------------------------------------------- */
+
+// RunModelReadOnly: printing, exporting, cloning, evaluating and reading the
+// parameters of a mixture or an HMM (with tied states, start and final state
+// restrictions) are read-only: the model's configuration and its density at a
+// probe point are the same afterwards, also after doing them twice.
+func RunModelReadOnly(c *core.Ctx) {
+	t := c.Tape
+	real := ad.Real64Type
+	mkNormal := func() st.ScalarPdf {
+		d, err := sd.NewNormalDistribution(ad.NewScalar(real, float64(t.Range(-4, 4))/2), ad.NewScalar(real, float64(t.Range(1, 4))/2))
+		if err != nil {
+			panic(err)
+		}
+		return d
+	}
+	var model interface {
+		ExportConfig() st.ConfigDistribution
+		LogPdf(ad.Scalar, ad.ConstVector) error
+		GetParameters() ad.Vector
+		CloneVectorPdf() st.VectorPdf
+	}
+	name := ""
+	probe := []float64{}
+	if t.Bool(1, 3) {
+		k := t.Range(1, 3)
+		w := ad.NullDenseFloat64Vector(k)
+		ed := make([]st.VectorPdf, k)
+		for i := 0; i < k; i++ {
+			w.At(i).SetFloat64(float64(t.Range(1, 4)))
+			x, err := vd.NewScalarId(mkNormal())
+			if err != nil {
+				panic(err)
+			}
+			ed[i] = x
+		}
+		m, err := vd.NewMixture(w, ed)
+		if err != nil {
+			c.Logf("constructor: %v", err)
+			return
+		}
+		model, name = m, fmt.Sprintf("vector mixture of %d", k)
+		probe = []float64{0.5}
+	} else {
+		m := t.Range(1, 3)
+		pi := ad.NullDenseFloat64Vector(m)
+		tr := ad.NullDenseFloat64Matrix(m, m)
+		for i := 0; i < m; i++ {
+			pi.At(i).SetFloat64(float64(t.Range(1, 4)))
+			for j := 0; j < m; j++ {
+				tr.At(i, j).SetFloat64(float64(t.Range(1, 4)))
+			}
+		}
+		var stateMap []int
+		nem := m
+		if m > 1 && t.Bool(1, 3) {
+			stateMap = make([]int, m)
+			for i := 1; i < m; i++ {
+				stateMap[i] = i - 1
+			}
+			nem = m - 1
+		}
+		ed := make([]st.ScalarPdf, nem)
+		for i := range ed {
+			ed[i] = mkNormal()
+		}
+		h, err := vd.NewHmm(pi, tr, stateMap, ed)
+		if err != nil {
+			c.Logf("constructor: %v", err)
+			return
+		}
+		name = fmt.Sprintf("hmm with %d states, state map %v", m, stateMap)
+		if t.Bool(1, 2) {
+			s := []int{t.Choose(m)}
+			if h.SetStartStates(s) == nil {
+				name += fmt.Sprintf(", start %v", s)
+			}
+		}
+		if t.Bool(1, 2) {
+			s := []int{t.Choose(m)}
+			if h.SetFinalStates(s) == nil {
+				name += fmt.Sprintf(", final %v", s)
+			}
+		}
+		model = h
+		for i := t.Range(1, 4); i > 0; i-- {
+			probe = append(probe, float64(t.Range(-4, 4))/2)
+		}
+	}
+	x := ad.NewDenseFloat64Vector(probe)
+	finger := func() string {
+		r := ad.NewReal64(0)
+		var err error
+		var cfg st.ConfigDistribution
+		if pv, _ := core.Try(func() { err = model.LogPdf(r, x); cfg = model.ExportConfig() }); pv != nil {
+			return fmt.Sprint("panic: ", pv)
+		}
+		b, _ := json.Marshal(cfg)
+		return fmt.Sprintf("%.12g|%v|%s", r.GetFloat64(), err, b)
+	}
+	before := finger()
+	c.Logf("%s; probe %v", name, probe)
+	nops := t.Range(1, 5)
+	for k := 0; k < nops; k++ {
+		c.Steps++
+		op := t.Choose(5)
+		opName := []string{"String", "ExportConfig", "CloneVectorPdf", "GetParameters", "LogPdf"}[op]
+		if pv, site := core.Try(func() {
+			switch op {
+			case 0:
+				_ = fmt.Sprint(model)
+			case 1:
+				_ = model.ExportConfig()
+			case 2:
+				_ = model.CloneVectorPdf()
+			case 3:
+				_ = model.GetParameters()
+			default:
+				model.LogPdf(ad.NewReal64(0), x)
+			}
+		}); pv != nil {
+			c.Logf("%s panicked in %s: %v", opName, site, pv)
+			c.Count("op-panicked")
+			continue
+		}
+		if after := finger(); after != before {
+			c.Fail("operand-unchanged", "Model|"+opName+"|model-changed-by-a-read-only-operation", "%s changed the %s it was applied to: %s -> %s", opName, name, before, after)
+		}
+	}
+	c.Nontriv = true
+	c.StateStr(name)
+	c.Sample = map[string]interface{}{"model": name, "ops": nops}
 }
